@@ -67,8 +67,81 @@ func checkErrsReturned(c *Ctx, p *Prog, fn *Fn, rule, name string, match func(*t
 			_ = after
 		}
 	}
+	if ok {
+		if pos, msg := wrapsOtherError(p, fn); msg != "" {
+			ok, why, where = false, msg, pos
+		}
+	}
 	c.Check(ok, rule, construct, where, "error-not-propagated:"+name, why)
 	return len(calls)
+}
+
+// wrapsOtherError: inside `if X != nil { ... }` a `return ... errors.Wrap(Y, ...)` with Y a different
+// error variable that the branch does not assign. pkg/errors' Wrap, Wrapf, WithMessage(f) and
+// WithStack return nil for a nil argument, so when Y is nil on that path the failure is reported
+// as success.
+func wrapsOtherError(p *Prog, fn *Fn) (string, string) {
+	info := fn.Info()
+	pos, msg := "", ""
+	inspectNoLit(fn.Body(), func(n ast.Node) bool {
+		ifs, isIf := n.(*ast.IfStmt)
+		if !isIf || msg != "" {
+			return true
+		}
+		x, nonNil, k := nilTest(info, ifs.Cond)
+		if !k || !nonNil {
+			return true
+		}
+		ox := objOf(info, x)
+		if ox == nil || !isErrorType(ox.Type()) {
+			return true
+		}
+		assigned := map[types.Object]bool{}
+		inspectNoLit(ifs.Body, func(m ast.Node) bool {
+			if as, ok := m.(*ast.AssignStmt); ok {
+				for _, l := range as.Lhs {
+					if o := objOf(info, l); o != nil {
+						assigned[o] = true
+					}
+				}
+			}
+			return true
+		})
+		inspectNoLit(ifs.Body, func(m ast.Node) bool {
+			if inner, ok := m.(*ast.IfStmt); ok && inner != ifs {
+				return false // a nested test speaks for itself
+			}
+			ret, ok := m.(*ast.ReturnStmt)
+			if !ok || len(ret.Results) == 0 {
+				return true
+			}
+			call, ok := unparen(ret.Results[len(ret.Results)-1]).(*ast.CallExpr)
+			if !ok || len(call.Args) == 0 {
+				return true
+			}
+			f := calleeOf(info, call)
+			if f == nil || f.Pkg() == nil || f.Pkg().Path() != "github.com/pkg/errors" {
+				return true
+			}
+			switch f.Name() {
+			case "Wrap", "Wrapf", "WithMessage", "WithMessagef", "WithStack":
+			default:
+				return true
+			}
+			y, ok := unparen(call.Args[0]).(*ast.Ident)
+			if !ok {
+				return true
+			}
+			oy := objOf(info, y)
+			if oy != nil && oy != ox && isErrorType(oy.Type()) && !assigned[oy] {
+				pos = p.Pos(ret.Pos())
+				msg = "the branch taken when " + ox.Name() + " != nil returns errors." + f.Name() + "(" + oy.Name() + ", …): " + oy.Name() + " is a different variable, and " + f.Name() + " of a nil error is nil, so the failure is returned as success"
+			}
+			return true
+		})
+		return true
+	})
+	return pos, msg
 }
 
 // failEdgeExits reports, for an `if err != nil { ... }` following call, whether its body ends in
@@ -158,4 +231,8 @@ func argMentions(fn *Fn, call *ast.CallExpr, i int, idents ...string) bool {
 		}
 	}
 	return false
+}
+
+func isErrorType(t types.Type) bool {
+	return t != nil && types.Identical(t, types.Universe.Lookup("error").Type())
 }
